@@ -21,6 +21,24 @@ TIMESTAMPS = ["2020-08-19T08:38:00Z", "1985-04-12T23:20:50.52Z", "1996-12-19T16:
 BAD_TIMESTAMPS = ["2020-08-19", "yesterday", "2020-13-01T00:00:00Z", "", "2020-08-19T08:38:00"]
 
 
+PLAIN = [False]     # set while generating predicates that must be decodable (building statements from values)
+OTHER_ALGS = ["sha1", "sha384", "md5", "gitCommit", "sha3_256", "SHA256", "Unknown", "blake2b"]
+
+
+def arts(rng, hostile=0.2, d=None):
+    """an artifact map for a statement; now and then one artifact carries (also, or only) a digest under an algorithm
+    name other than sha256 / sha512 - accepted or not, the document must stay self-consistent"""
+    d = docgen.rand_artifacts(rng, hostile) if d is None else d
+    if d and not PLAIN[0] and rng.random() < 0.15:
+        p = rng.choice(sorted(d))
+        alg = rng.choice(OTHER_ALGS)
+        if rng.random() < 0.5:
+            d[p] = {alg: "ab" * 20}
+        else:
+            d[p] = dict(d[p], **{alg: "cd" * 20})
+    return d
+
+
 def subset(rng, d, required=()):
     """random subset of the optional members of d (required ones always kept)"""
     return {k: v for k, v in d.items() if k in required or rng.random() < 0.6}
@@ -61,7 +79,7 @@ def gen_slsa2(rng, ts=True):
 
 def gen_linkv02(rng):
     l = docgen.rand_link(rng, 0.4)
-    d = {"name": l["name"], "materials": l["materials"], "env": l["environment"], "command": l["command"], "byproducts": l["byproducts"]}
+    d = {"name": l["name"], "materials": arts(rng, d=l["materials"]), "env": l["environment"], "command": l["command"], "byproducts": l["byproducts"]}
     if rng.random() < 0.2:
         del d["env"]
     return d
@@ -78,7 +96,7 @@ def gen_predicate(rng, ts=True):
 
 def gen_naive(rng):
     l = docgen.rand_link(rng, 0.4)
-    d = {"_type": S_NAIVE, "name": l["name"], "materials": l["materials"], "products": l["products"], "env": l["environment"],
+    d = {"_type": S_NAIVE, "name": l["name"], "materials": arts(rng, d=l["materials"]), "products": arts(rng, d=l["products"]), "env": l["environment"],
          "command": l["command"], "byproducts": l["byproducts"]}
     if rng.random() < 0.15:
         del d["env"]
@@ -87,7 +105,7 @@ def gen_naive(rng):
 
 def gen_v01(rng, ts=True, declared=None):
     actual, pred = gen_predicate(rng, ts)
-    return {"_type": S_V01, "subject": docgen.rand_artifacts(rng, 0.1), "predicateType": declared or actual, "predicate": pred}, actual
+    return {"_type": S_V01, "subject": arts(rng, 0.1), "predicateType": declared or actual, "predicate": pred}, actual
 
 
 def mutate(rng, doc):
